@@ -347,6 +347,15 @@ Section Complete.
     unfold net_geo. rewrite (geo_end_complete w _ _ E1 G1), (geo_end_complete w _ _ E2 G2), Hf, Ht. reflexivity.
   Qed.
 
+  Lemma chk_marks_complete : chk_marks l = true.
+  Proof.
+    unfold chk_marks. apply forallb_forall. intros m Hm. unfold mark_ok. apply forallb_forall. intros a Ha.
+    destruct (Nat.eqb (a_sym a) (m_sym m) && pin_eqb (a_pin a) (m_pin m)) eqn:Hk; [|reflexivity].
+    apply andb_true_iff in Hk. destruct Hk as [Hs Hp]. apply Nat.eqb_eq in Hs. apply pin_eqb_eq in Hp.
+    pose proof (ok_marks c l H m a Hm Ha Hs Hp) as Hin.
+    unfold on_mark. rewrite !andb_true_iff, !Z.leb_le. tauto.
+  Qed.
+
   Theorem schem_ok_complete_sec : schem_ok c l = true.
   Proof.
     unfold schem_ok. rewrite !andb_true_iff. repeat split.
@@ -359,6 +368,7 @@ Section Complete.
     - unfold chk_wires. apply forallb_forall. intros w Hw. apply chk_wire_complete. exact Hw.
     - exact chk_pinpts_complete.
     - exact chk_geo_complete.
+    - exact chk_marks_complete.
   Qed.
 End Complete.
 
